@@ -14,11 +14,14 @@
   * `dim_states`, `dim_states_zero`, `dim_states_count` (D1) and `dim_period`, `dim_period_zero`,
     `dim_period_count`, `dim_windows_distinct`, `dim_period_pair` (D2): the statements on states
     and — with the three facts of a full cycle that C07 provides (`count_period`'s hypotheses) — on
-    the stream.
+    the stream;
+  * `window_fibre_card`, `dim_states_count_le`, `dim_period_count_le`: every lower dimension
+    `d ≤ k` — a `d`-tuple occurs `2^(w(k-d))` times per period, the all-zero one once less.
 -/
 import Rngs.Lib.Equidist
 import Rngs.Lib.DimCert
 import Mathlib.Data.Fintype.Pi
+import Mathlib.Algebra.BigOperators.Group.Finset.Basic
 namespace Rngs.EquidistDim
 open Rngs Rngs.Equidist
 
@@ -365,5 +368,101 @@ theorem dim_period_pair {out : σ → BitVec w} (hW : Function.Bijective (window
   exact ⟨i, ⟨hi, (key i).mp e⟩, fun i' ⟨hi', e'⟩ => huniq i' ⟨hi', (key i').mpr e'⟩⟩
 
 end period
+
+/-! ## lower dimensions: `d ≤ k` consecutive outputs
+
+  A generator whose `k`-windows are in bijection with the states is `d`-dimensionally
+  equidistributed for every `d ≤ k`: a `d`-tuple extends to `|β|^(k-d)` `k`-tuples. -/
+
+section lower
+variable {σ β : Type} {k : Nat} {out : σ → β} {T : σ → σ}
+
+/-- a `(d+1)`-window is a `d`-window and one more output -/
+theorem window_snoc_iff (d : Nat) (t : σ) (y : Fin d → β) (v : β) :
+    window (d + 1) out T t = Fin.snoc (α := fun _ => β) y v
+      ↔ (window d out T t = y ∧ out (iter T d t) = v) := by
+  constructor
+  · intro h
+    refine ⟨funext fun j => ?_, ?_⟩
+    · have := congrFun h j.castSucc
+      rw [Fin.snoc_castSucc] at this
+      exact this
+    · have := congrFun h (Fin.last d)
+      rw [Fin.snoc_last] at this
+      exact this
+  · rintro ⟨h1, h2⟩
+    funext j
+    refine Fin.lastCases ?_ (fun i => ?_) j
+    · rw [Fin.snoc_last]; exact h2
+    · rw [Fin.snoc_castSucc]; exact congrFun h1 i
+
+/-- among all states, every `d`-tuple (`d + m = k`) is the `d`-window of exactly `|β|^m` states -/
+theorem window_fibre_card [Fintype σ] [Fintype β] [DecidableEq β]
+    (hW : Function.Bijective (window k out T)) :
+    ∀ m d, d + m = k → ∀ y : Fin d → β,
+      (Finset.univ.filter (fun t : σ => window d out T t = y)).card = Fintype.card β ^ m := by
+  intro m
+  induction m with
+  | zero =>
+    intro d hd y
+    have : d = k := by omega
+    subst this
+    rw [card_fibre_of_bijective hW y, Nat.pow_zero]
+  | succ m ih =>
+    intro d hd y
+    rw [Finset.card_eq_sum_card_fiberwise (f := fun t : σ => out (iter T d t)) (t := Finset.univ)
+      (fun _ _ => Finset.mem_coe.mpr (Finset.mem_univ _))]
+    have e : ∀ v ∈ (Finset.univ : Finset β),
+        ((Finset.univ.filter (fun t : σ => window d out T t = y)).filter
+          (fun t => out (iter T d t) = v)).card = Fintype.card β ^ m := by
+      intro v _
+      rw [← ih (d + 1) (by omega) (Fin.snoc (α := fun _ => β) y v)]
+      congr 1
+      ext t
+      simp only [Finset.mem_filter, Finset.mem_univ, true_and, window_snoc_iff]
+    rw [Finset.sum_const_nat e, Finset.card_univ, Nat.pow_succ, Nat.mul_comm]
+
+end lower
+
+section lowerPeriod
+attribute [local instance] bitVecFintype
+variable {σ : Type} {w k : Nat} {out : σ → BitVec w} {T : σ → σ} {N : Nat} {z s₀ : σ}
+
+/-- (D1, `d ≤ k`) among the states `≠ z`, every `d`-tuple is the `d`-window of `2^(w(k-d))` states,
+    the all-zero tuple of one less -/
+theorem dim_states_count_le [Fintype σ] [DecidableEq σ]
+    (hW : Function.Bijective (window k out T)) (hTz : T z = z) (hoz : out z = 0)
+    (d : Nat) (hd : d ≤ k) (y : Fin d → BitVec w) :
+    (Finset.univ.filter (fun t : σ => t ≠ z ∧ ∀ j : Fin d, out (iter T j.val t) = y j)).card
+      = if ∀ j, y j = 0 then 2 ^ (w * (k - d)) - 1 else 2 ^ (w * (k - d)) := by
+  have e : ∀ t, (∀ j : Fin d, out (iter T j.val t) = y j) ↔ window d out T t = y :=
+    fun t => ⟨fun h => funext h, fun h j => congrFun h j⟩
+  have e2 : (∀ j, y j = 0) ↔ window d out T z = y := by
+    rw [window_fixed d hTz hoz]
+    exact ⟨fun h => (funext h).symm, fun h j => by rw [← h]⟩
+  simp only [e, e2]
+  rw [card_nonzero_fibre, window_fibre_card hW (k - d) d (by omega) y, card_bitVec, ← Nat.pow_mul]
+
+/-- (D2, `d ≤ k`) over one period every `d`-tuple occurs at `2^(w(k-d))` positions, the all-zero
+    tuple at one less -/
+theorem dim_period_count_le [Fintype σ] [DecidableEq σ]
+    (hW : Function.Bijective (window k out T)) (hTz : T z = z) (hoz : out z = 0)
+    (hnz : ∀ i, iter T i s₀ ≠ z)
+    (hnr : ∀ i j, i < j → j < N → iter T i s₀ ≠ iter T j s₀)
+    (hsc : ∀ t, t ≠ z → ∃ i, i < N ∧ iter T i s₀ = t)
+    (d : Nat) (hd : d ≤ k) (y : Fin d → BitVec w) :
+    ((Finset.range N).filter (fun i => ∀ j : Fin d, out (iter T (i + j.val) s₀) = y j)).card
+      = if ∀ j, y j = 0 then 2 ^ (w * (k - d)) - 1 else 2 ^ (w * (k - d)) := by
+  have e : ∀ i, (∀ j : Fin d, out (iter T (i + j.val) s₀) = y j) ↔ window d out T (iter T i s₀) = y :=
+    fun i => ⟨fun h => funext fun j => by rw [window_iter, h],
+      fun h j => by rw [← window_iter d out T i s₀ j, h]⟩
+  have e' : ∀ t, (∀ j : Fin d, out (iter T j.val t) = y j) ↔ window d out T t = y :=
+    fun t => ⟨fun h => funext h, fun h j => congrFun h j⟩
+  have h := dim_states_count_le hW hTz hoz d hd y
+  simp only [e'] at h
+  simp only [e]
+  exact (count_period hnz hnr hsc (window d out T) y).trans h
+
+end lowerPeriod
 
 end Rngs.EquidistDim
